@@ -76,7 +76,7 @@ def partitions(tier):
             parts.append(dict(name="t2:48:%s:%d:format:%s" % (prefix or "-", i, wipe), fn="t2_format",
                               params=dict(S=48, prefix=prefix, rsv=rsv, oldlens=[0, 3], wipe=wipe)))
     for S in ([496] if tier == "quick" else [496, 872, 2032]):
-        for prefix, rsv in [("", []), ("L", [(16 + S, (S - 48 + 63) // 64)]), ("NM", [(320, 8)])]:
+        for prefix, rsv in [("", []), ("L", [(896 if S == 872 else 16 + S, (S - 48 + 63) // 64)]), ("NM", [(320, 8)])]:
             parts.append(dict(name="t2:%d:%s:write" % (S, prefix or "-"), fn="t2_write",
                               params=dict(S=S, prefix=prefix, rsv=rsv, oldlens=[0, 255],
                                           lens=[3, 254, 255, "cap"], long=True)))
